@@ -811,7 +811,8 @@ func TypeConforms(ctx map[ast.Variable]ast.BaseTerm, left ast.BaseTerm, right as
 			if strings.HasPrefix(leftConst.Symbol, rightConst.Symbol+"/") {
 				return true
 			}
-			return leftConst.Type == ast.NameType && rightConst.Equals(ast.NameBound)
+			// A name prefix type such as /foo conforms to /name; base types do not.
+			return isNamePrefixType(leftConst) && rightConst.Equals(ast.NameBound)
 		}
 	}
 	// fn:Singleton(c) <: T if c is a member of T.
@@ -951,6 +952,19 @@ func TypeConforms(ctx map[ast.Variable]ast.BaseTerm, left ast.BaseTerm, right as
 	}
 
 	return false
+}
+
+// isNamePrefixType returns true if c is a name constant used as a type
+// whose members are the names below it, i.e. not one of the base types.
+func isNamePrefixType(c ast.Constant) bool {
+	if c.Type != ast.NameType || IsBaseTypeExpression(c) {
+		return false
+	}
+	switch c {
+	case ast.NameBound, ast.TimeBound, ast.DurationBound:
+		return false
+	}
+	return true
 }
 
 func expandTupleType(args []ast.BaseTerm) ast.BaseTerm {
